@@ -4,10 +4,13 @@ package plugin_test
 
 import (
 	"fmt"
+	"net"
 	"net/netip"
+	"strings"
 	"testing"
 	"time"
 
+	"github.com/mdlayher/corerad/internal/config"
 	"github.com/mdlayher/corerad/internal/plugin"
 	"github.com/mdlayher/corerad/internal/system"
 	"github.com/mdlayher/corerad/internal/verifh"
@@ -93,6 +96,13 @@ func TestVerifC16(t *testing.T) {
 		}
 		clock := func() time.Time { reads++; return now.Add(time.Duration((reads - 1) * tick)) }
 		wildcard := r.Chance(30) // the ::/64 / ::/0 wildcard forms take the same countdown
+		// 30%: the plugin value comes out of config.Parse (given the same epoch, sub-second part included);
+		// 40%: the plugin is Prepared once or twice, as Advertiser.Run does at every (re)initialisation, before use
+		parsed := r.Chance(30) && valid != int64(ndp.Infinity) && pref >= 1
+		prepares := 0
+		if r.Chance(40) {
+			prepares = 1 + r.Intn(2)
+		}
 		var apply func() (int64, int64)
 		uneven := ""
 		if route {
@@ -100,6 +110,21 @@ func TestVerifC16(t *testing.T) {
 				Prefix: netip.MustParsePrefix("2001:db8::/32"), Preference: ndp.Medium,
 				Lifetime: time.Duration(valid), Deprecated: dep, Epoch: time.Unix(0, epoch), TimeNow: clock,
 			}
+			if parsed {
+				// the value the parser builds from the same parameters, given the same (sub-second) epoch
+				q, ok := c16Parse(t, epoch, fmt.Sprintf("  [[interfaces.route]]\n  prefix = \"2001:db8::/32\"\n  lifetime = \"%dns\"\n  deprecated = %v\n", valid, dep)).(*plugin.Route)
+				if !ok {
+					continue
+				}
+				p = q
+			}
+			for k := 0; k < prepares; k++ {
+				// Prepare at (re)initialisation must not move the deadline: it only installs the sources
+				if err := p.Prepare(&net.Interface{Index: 1, Name: "lo"}); err != nil {
+					t.Fatal(err)
+				}
+			}
+			p.TimeNow = clock
 			if wildcard {
 				p.Auto, p.Prefix = true, netip.MustParsePrefix("::/0")
 				p.Routes = func() ([]system.Route, error) {
@@ -127,6 +152,19 @@ func TestVerifC16(t *testing.T) {
 				ValidLifetime: time.Duration(valid), PreferredLifetime: time.Duration(pref),
 				Deprecated: dep, Epoch: time.Unix(0, epoch), TimeNow: clock,
 			}
+			if parsed {
+				q, ok := c16Parse(t, epoch, fmt.Sprintf("  [[interfaces.prefix]]\n  prefix = \"2001:db8::/64\"\n  valid_lifetime = \"%dns\"\n  preferred_lifetime = \"%dns\"\n  deprecated = %v\n", valid, pref, dep)).(*plugin.Prefix)
+				if !ok {
+					continue
+				}
+				p = q
+			}
+			for k := 0; k < prepares; k++ {
+				if err := p.Prepare(&net.Interface{Index: 1, Name: "lo"}); err != nil {
+					t.Fatal(err)
+				}
+			}
+			p.TimeNow = clock
 			if wildcard {
 				p.Auto, p.Prefix = true, netip.MustParsePrefix("::/64")
 				p.Addrs = func() ([]system.IP, error) {
@@ -163,7 +201,8 @@ func TestVerifC16(t *testing.T) {
 		if route {
 			tags[0] = "kind:route"
 		}
-		tags = append(tags, fmt.Sprintf("wildcard:%v", wildcard), fmt.Sprintf("clock-ticks-within-apply:%v", tick > 0))
+		tags = append(tags, fmt.Sprintf("wildcard:%v", wildcard), fmt.Sprintf("clock-ticks-within-apply:%v", tick > 0),
+			fmt.Sprintf("from-parser:%v", parsed), fmt.Sprintf("prepared:%d", prepares))
 		if sorted {
 			tags = append(tags, "clock:nondecreasing")
 		} else {
@@ -179,4 +218,22 @@ func TestVerifC16(t *testing.T) {
 			ImplViolation: uneven,
 		})
 	}
+}
+
+// c16Parse runs config.Parse on a one-interface document with the given plugin stanza and epoch and
+// returns the single non-LLA plugin it produced (nil when the parser refuses the document).
+func c16Parse(t *testing.T, epoch int64, stanza string) plugin.Plugin {
+	doc := "[[interfaces]]\nname = \"eth0\"\nadvertise = true\nsource_lla = false\n" + stanza
+	cfg, err := config.Parse(strings.NewReader(doc), time.Unix(0, epoch))
+	if err != nil {
+		return nil
+	}
+	for _, p := range cfg.Interfaces[0].Plugins {
+		switch p.(type) {
+		case *plugin.Prefix, *plugin.Route:
+			return p
+		}
+	}
+	t.Fatalf("parsed configuration has no prefix / route plugin: %s", doc)
+	return nil
 }
